@@ -28,7 +28,7 @@ chk("C14", "exploration",
     "DESIGN.md §3 C14")
 
 chk("C16", "exploration",
-    "Every sentence of the path grammar up to 2 (quick) / 3 (thorough) leaves in every layout of a whitespace/parenthesis menu, and every single-edit mutation of every canonical sentence, is classified by a literal interpreter of the documented PEG with end-of-input and compared with what CompileProfile accepts; accepted strings are compared structurally (AST) and, for a subset, by denotation.",
+    "Every sentence of the path grammar up to 2 (quick) / 3 (thorough) leaves in every layout of a whitespace/parenthesis menu, and every single-edit mutation of every canonical sentence, is classified by a literal interpreter of the documented PEG with end-of-input and compared with what CompileProfile accepts; accepted strings are compared structurally (AST) and, for a subset, by denotation; every string is also given to the path parser directly, so that a later stage cannot mask a parser that accepts too much. Identifiers of 31..257 characters are included.",
     "The reference language is third_party/propertyparser.peg plus end of input, with '^' as the only modifier; the '*' modifier is undocumented.",
     "bounded exhaustive enumeration of strings (all layouts, all single edits) against a reference recogniser, on the real implementation",
     "DESIGN.md §3 C16")
@@ -58,13 +58,13 @@ chk("C18", "model_checking",
     "DESIGN.md §3 C18")
 
 chk("C05", "model_checking",
-    "Explicit-state search over JSON-LD surface rewrites: from the canonical serialisation of 5 base graphs, every sequence of <=2 (quick; <=3 thorough; one level deeper for the small tree graph) rewrites drawn from 15 operators at every applicable position, deduplicated on the document text; each transition is validated to preserve the RDF dataset (json-gold N-Quads) and each state's verdict (conforms + result set with messages) under a 7-observer profile must equal the initial state's.",
+    "Explicit-state search over JSON-LD surface rewrites: (plus whitespace forms through the CLI and documents of up to 1025/4097 items with anonymous nodes in six forms) from the canonical serialisation of 5 base graphs, every sequence of <=2 (quick; <=3 thorough; one level deeper for the small tree graph) rewrites drawn from 15 operators at every applicable position, deduplicated on the document text; each transition is validated to preserve the RDF dataset (json-gold N-Quads) and each state's verdict (conforms + result set with messages) under a 7-observer profile must equal the initial state's.",
     "Differential oracle (no hand-written expected values); typed literals, blank nodes and remote contexts are outside the alphabet; the RDF-equivalence check trusts json-gold's ToRDF.",
     "explicit-state depth-bounded search over rewrite sequences with text-level state deduplication and a differential oracle on the real implementation",
     "DESIGN.md §3 C05")
 
 chk("C15", "model_checking",
-    "Explicit-state search over meaning-preserving rewrites of the profile text: from 8 base profiles, every rewrite (quick: every single rewrite, and every pair for the sibling-quantifier and the shadowed-default-prefix profiles; thorough: every pair everywhere) among key swaps, item swaps, prefix renaming/default-prefix substitution, quoting styles, flow/block style, comments, indentation, CRLF and trailing blanks; each successor is validated to denote the same abstract profile and its verdict on a data graph must equal the base spelling's.",
+    "Explicit-state search over meaning-preserving rewrites of the profile text: from 10 base profiles, every rewrite (quick: every single rewrite, and every pair for the sibling-quantifier and the shadowed-default-prefix profiles; thorough: every pair everywhere) among key swaps, item swaps, prefix renaming/default-prefix substitution, quoting styles, flow/block style, comments, indentation, CRLF and trailing blanks; each successor is validated to denote the same abstract profile and its verdict on a data graph must equal the base spelling's.",
     "Differential oracle; the equivalence check of successors uses yaml.v3 decoding plus IRI expansion with the declared and default prefixes.",
     "explicit-state depth-bounded search over rewrite sequences with text-level deduplication and a differential oracle on the real implementation",
     "DESIGN.md §3 C15")
